@@ -1121,7 +1121,25 @@ fn lifecycle(prop: Prop) -> R {
     Ok(())
 }
 
+/// One default-constructed observable of each flavour and kind stays alive for the whole process
+/// (created before any case, outside every case's instance registry): every case that builds its
+/// observable with `Default::default()` therefore does so while another default-constructed
+/// observable exists - state shared between "unrelated" observables shows as wrong counts.
+fn first_defaults() {
+    use std::sync::OnceLock;
+    struct Keep(
+        #[allow(dead_code)] eyeball::SharedObservable<OVal>,
+        #[allow(dead_code)] eyeball::SharedObservable<OVal, eyeball::AsyncLock>,
+        #[allow(dead_code)] std::sync::Mutex<(eyeball::Observable<OVal>, eyeball::Observable<OVal, eyeball::AsyncLock>)>,
+    );
+    unsafe impl Sync for Keep {}
+    unsafe impl Send for Keep {}
+    static KEEP: OnceLock<Keep> = OnceLock::new();
+    KEEP.get_or_init(|| Keep(Default::default(), Default::default(), std::sync::Mutex::new((Default::default(), Default::default()))));
+}
+
 pub fn run(case: &ObsCase, prop: Prop) -> R<CaseReport> {
+    first_defaults();
     let (mut rep, f) = match case.flavour {
         Fl::Sync => {
             registry_reset();
